@@ -1033,19 +1033,6 @@ Definition BR (b : blocking) : Prop := forall c st, zlookup c (b_blk b) = Some s
 Lemma cinv_set_db_direct s dbi d' : cinv s -> ALLd d' -> cinv (set_db s dbi d').
 Proof. intros CI HA. eapply cinv_set_db; eauto; reflexivity. Qed.
 
-(** the other keys of the call, tried in order (8ab686d): at most one element leaves *)
-Lemma recheck_delta left dbi : forall keys d o d',
-  ALLd d -> recheck left d keys = (o, d') ->
-  ALLd d' /\ forall k' x, occm x (lst d' k') + ecountm (dbi, k', x) (match o with Some (k, v) => [(dbi, k, v)] | None => [] end) = occm x (lst d k').
-Proof.
-  induction keys as [|k keys IH]; intros d o d' HA H; cbn [recheck] in H.
-  - injection H as <- <-. split; [exact HA|]. intros k' x. rewrite ecount_nil. lia.
-  - pose proof (on_key_pop_delta left d k dbi HA) as Hp. cbv zeta in Hp.
-    destruct (on_key d k (e_pop left)) as [r d1]. cbn [fst snd] in Hp. destruct Hp as (P1 & P2 & P3).
-    destruct r; try contradiction.
-    + injection H as <- <-. split; [exact P1|]. exact P3.
-    + destruct (IH d1 o d' P1 H) as (Q1 & Q3). split; [exact Q1|]. intros k' x. rewrite Q3. specialize (P3 k' x). rewrite ecount_nil in P3. lia.
-Qed.
 (** an element popped for a client that has gone and pushed back at the end it came from:
     the list is as it was *)
 Lemma pop_push_back left d k v d1 :
@@ -1109,17 +1096,12 @@ Proof.
       apply (delta_one_db s (set_db s (u_db u) d') (u_db u) d' [] [(u_db u, u_key u, b0)] (ci_len s CI) Hr eq_refl (in_db_nil _)).
       * intros e0 [<-|[]]. reflexivity.
       * intros k x. rewrite ecount_nil, P3. lia.
-    + (* nothing there: the other keys of the call, else registered again *)
-      destruct (recheck (bl_left st) d' (bl_keys st)) as [[[k v]|] d''] eqn:Er;
-        destruct (recheck_delta (bl_left st) (u_db u) _ _ _ _ P1 Er) as (Q1 & Q3); cbn [fst snd].
-      * split; [apply cinv_log_pop, cinv_set_db_direct; assumption|]. right. exists st, k, v.
-        split; [reflexivity|]. split; [reflexivity|]. split; [reflexivity|]. rewrite <- U1. apply delta_log_pop.
-        apply (delta_one_db s (set_db s (u_db u) d'') (u_db u) d'' [] [(u_db u, k, v)] (ci_len s CI) Hr eq_refl (in_db_nil _)).
-        -- intros e0 [<-|[]]. reflexivity.
-        -- intros k' x. specialize (Q3 k' x). specialize (P3 k' x). rewrite ecount_nil in *. lia.
-      * split; [apply cinv_set_db_direct; assumption|]. left. split; [reflexivity|]. split; [reflexivity|].
-        apply (delta_one_db s (set_db s (u_db u) d'') (u_db u) d'' [] [] (ci_len s CI) Hr eq_refl (in_db_nil _) (in_db_nil _)).
-        intros k' x. specialize (Q3 k' x). specialize (P3 k' x). rewrite ecount_nil in *. lia.
+    + (* nothing there: registered again, the heads of its keys that hold an element notified;
+         nothing is popped, nothing is written *)
+      split; [apply cinv_set_db_direct; assumption|]. left.
+      split; [exact (proj1 (proj2 (renotify_fields _ _ _ _)))|]. split; [exact (proj1 (renotify_fields _ _ _ _))|].
+      apply (delta_one_db s (set_db s (u_db u) d') (u_db u) d' [] [] (ci_len s CI) Hr eq_refl (in_db_nil _) (in_db_nil _)).
+      intros k' x. specialize (P3 k' x). rewrite ecount_nil in *. lia.
   - (* the client has gone: what was popped for it goes back *)
     destruct r; try contradiction; cbn [fst snd].
     + destruct (pop_push_back _ _ _ _ _ HAd Epop) as (B1 & B2).
